@@ -108,6 +108,12 @@ CHECKS = {
         "Trusted: the statement generator keeps the ground truth it renders. Charges only on foreign-currency rows (the statement does not define a charge on a plain row).",
         "4/C16",
     ),
+    "C18": (
+        "runtime monitor: consistent generated camt.053 statements (batches, mixed-sign details, included charges, value/booking dates, both orders) through the real importer; tree compared with the statement's ground truth; imported text fed to okane's own book-keeping",
+        "1.5*10^4 (quick) / 8*10^5 (thorough) statements of 1-8 entries: the opening balance is asserted on a first zero transaction, every entry or detail becomes one transaction with the account posting signed by its own credit/debit indicator, dated by value date with the booking date as effective date when different, included charges become commission postings, the closing balance is asserted on the last transaction only; funding + printed output is accepted by report::process and ends at the closing balance (all 15000 quick cases exercise the end-to-end clause).",
+        "Trusted: the XML renderer in harness/src/checks/import_common.rs. Charges only on details with TxAmt given (an entry-level included charge without details cannot be balanced by any importer).",
+        "4/C18",
+    ),
 }
 
 NOT_APPLICABLE = []
